@@ -36,6 +36,34 @@ impl Prop for C06 {
             ..Knobs::default()
         };
         let mut gw = gen::gen_world(rng, &k);
+        if gw.world.configs[0].len() < 4 && rng.chance(1, 5) {
+            // a mode that differs from another one ONLY in its lookaheads (same regexes, same token
+            // types, same order): compiled state must not be shared between them
+            let src = rng.below(gw.world.configs[0].len());
+            let mut m = gw.world.configs[0][src].clone();
+            m.name = format!("LA{}", gw.world.configs[0].len());
+            for p in m.patterns.iter_mut() {
+                match (&p.lookahead, rng.below(3)) {
+                    (None, 0) | (None, 1) => {
+                        p.lookahead = Some(LookaheadSpec { is_positive: rng.chance(1, 2), pattern: gen::gen_lookahead_rx(rng, &gw.alphabet).render() })
+                    }
+                    (Some(la), 0) => p.lookahead = Some(LookaheadSpec { is_positive: !la.is_positive, pattern: la.pattern.clone() }),
+                    (Some(_), 1) => p.lookahead = None,
+                    _ => {}
+                }
+            }
+            let n = gw.world.configs[0].len();
+            // make it reachable: a transition from the source mode on one of its token types
+            if let Some(t) = m.patterns.first().map(|p| p.token_type) {
+                let tr = &mut gw.world.configs[0][src].transitions;
+                if !tr.iter().any(|x| x.0 == t) {
+                    tr.push((t, n));
+                    tr.sort();
+                }
+            }
+            gw.world.configs[0].push(m);
+            mark("probe.mode_differing_only_in_lookaheads");
+        }
         if gw.world.configs[0].len() == 1 && rng.chance(1, 2) {
             // single-mode worlds are less interesting here: duplicate the mode with a twist
             let mut m = gw.world.configs[0][0].clone();
@@ -64,7 +92,7 @@ impl Prop for C06 {
         &[
             "probe.switch_executed", "probe.self_loop_taken", "probe.early_exit_branch", "probe.transition_on_shared_type",
             "probe.set_mode_midstream_then_token", "probe.new_iter_after_scanner_set_mode", "probe.token_without_transition",
-            "probe.peek_in_switching_position", "probe.skipped_chars_then_token", "probe.transition_list_len_ge3",
+            "probe.peek_in_switching_position", "probe.skipped_chars_then_token", "probe.transition_list_len_ge3", "probe.single_mode_reference_comparisons", "probe.mode_differing_only_in_lookaheads",
             "fault.mode_override",
         ]
     }
@@ -114,6 +142,9 @@ impl<'w> Gen for Gen06<'w> {
 }
 
 struct St<'w> {
+    /// per mode, a scanner compiled from that mode alone (lazily, uncached): the independent
+    /// reference for "the patterns of the current mode"
+    solo: Rc<RefCell<Vec<Option<Option<Rc<Scanner>>>>>>,
     sc: Rc<RefCell<Scanner>>,
     cfg: usize,
     input: &'w str,
@@ -125,7 +156,7 @@ struct St<'w> {
 
 struct Exec06<'w> {
     world: &'w World,
-    scanners: Vec<Option<(Rc<RefCell<Scanner>>, usize, bool)>>,
+    scanners: Vec<Option<(Rc<RefCell<Scanner>>, usize, bool, Rc<RefCell<Vec<Option<Option<Rc<Scanner>>>>>>)>>,
     iters: Vec<Option<St<'w>>>,
 }
 
@@ -156,7 +187,7 @@ impl<'w> Exec for Exec06<'w> {
                 grow(&mut self.scanners, *sc);
                 match sut::build(c, *how) {
                     Ok(s) => {
-                        self.scanners[*sc] = Some((Rc::new(RefCell::new(s)), *cfg, false));
+                        self.scanners[*sc] = Some((Rc::new(RefCell::new(s)), *cfg, false, Rc::new(RefCell::new(vec![None; c.len()]))));
                         StepOut::ok(Obs::Built(Ok(())))
                     }
                     Err(Ok(k)) => {
@@ -171,7 +202,7 @@ impl<'w> Exec for Exec06<'w> {
                 }
             }
             Op::SetModeScanner { sc, mode } => {
-                let Some(Some((s, cfg, touched))) = self.scanners.get_mut(*sc) else { return StepOut::skipped() };
+                let Some(Some((s, cfg, touched, _))) = self.scanners.get_mut(*sc) else { return StepOut::skipped() };
                 let c = &world.configs[*cfg];
                 if *mode >= c.len() {
                     return StepOut::skipped();
@@ -195,7 +226,7 @@ impl<'w> Exec for Exec06<'w> {
                 StepOut::ok(Obs::Num(got))
             }
             Op::NewIter { it, sc, input, .. } => {
-                let Some(Some((s, cfg, touched))) = self.scanners.get(*sc) else { return StepOut::skipped() };
+                let Some(Some((s, cfg, touched, solo))) = self.scanners.get(*sc) else { return StepOut::skipped() };
                 let Some(inp) = world.inputs.get(*input) else { return StepOut::skipped() };
                 let inp: &'w str = inp.as_str();
                 grow(&mut self.iters, *it);
@@ -203,7 +234,7 @@ impl<'w> Exec for Exec06<'w> {
                     mark("probe.new_iter_after_scanner_set_mode");
                 }
                 let f = s.borrow().find_iter(inp);
-                let st = St { sc: s.clone(), cfg: *cfg, input: inp, sut: f, model_mode: 0, cursor: 0, forced: false };
+                let st = St { solo: solo.clone(), sc: s.clone(), cfg: *cfg, input: inp, sut: f, model_mode: 0, cursor: 0, forced: false };
                 let v = check_mode_view(&st, &world.configs[*cfg], idx).map(|v| Violation { signature: format!("{}/new_iter", v.signature), ..v });
                 self.iters[*it] = Some(st);
                 StepOut { obs: Obs::Unit, violation: v, abort: false }
@@ -247,6 +278,26 @@ impl<'w> Exec for Exec06<'w> {
                                 }
                                 if v.is_none() && g != e {
                                     v = Some(viol("C06/token/differs_from_fresh_scan_in_model_mode".into(), idx, e, g));
+                                }
+                                if v.is_none() {
+                                    // (f) the same token as a scanner compiled from the model's mode ALONE
+                                    let solo_sc = {
+                                        let mut solo = st.solo.borrow_mut();
+                                        if solo[mode].is_none() {
+                                            let one = vec![ModeSpec { name: cfg[mode].name.clone(), patterns: cfg[mode].patterns.clone(), transitions: vec![] }];
+                                            solo[mode] = Some(sut::build(&one, BuildHow::Uncached).ok().map(Rc::new));
+                                        }
+                                        solo[mode].clone().unwrap()
+                                    };
+                                    if let Some(ssc) = solo_sc {
+                                        let es = guarded(|| ssc.find_iter(&input[cursor..]).next().map(|m| sut::shift(sut::tok(&m), cursor)));
+                                        if let Ok(es) = es {
+                                            bump("probe.single_mode_reference_comparisons");
+                                            if es != g {
+                                                v = Some(viol("C06/token/differs_from_scanner_of_the_current_mode_alone".into(), idx, es, g));
+                                            }
+                                        }
+                                    }
                                 }
                                 if v.is_none() {
                                     if let Some(t) = g {
